@@ -584,9 +584,9 @@ func rFamily(tier string) *core.Family {
 func aFamily(tier string) *core.Family {
 	rInit()
 	type ac struct {
-		fn   int
-		f    field
-		bit  int
+		fn  int
+		f   field
+		bit int
 	}
 	var cases []ac
 	for k := range rDumps {
